@@ -408,6 +408,13 @@ def model(m, s, fi, t, fk, args, site):
         it = as_iter(m, s, args[0])
         if it is not None:
             return Tup([m._freeze(s, x) if isinstance(x, Ref) else x for x in it.rest()])
+    # ---------------------------------------------------------------- bool::then / then_some on a decided condition
+    if d.startswith("core::bool") and n in ("then", "then_some") and len(args) == 2 and isinstance(A[0], (bool, int)) and not isinstance(A[0], T):
+        if not A[0]:
+            return NONE
+        if n == "then_some":
+            return some(A[1])
+        return m.apply(s, fi, t, args[1], [], lambda r: some(r))
     # ---------------------------------------------------------------- Option / Result
     v0 = A[0] if A else None
     if isinstance(v0, Adt) and v0.name in (OPT, RES):
